@@ -179,14 +179,54 @@ def replay(case, key):
     if case.get("kind") == "quad":
         n, npts, bad = check_block([tuple(case["q"])])
         return any(("C11/" + k) == key for k in bad)
+    if case.get("kind") == "badslevel":
+        n, bad = bads_level([tuple(case["q"][:4])])
+        return any(("C11/" + k) == key for k in bad)
     n, bad = check_multi(tuple(case["combo"]))
     return any(("C11/" + k) == key for k in bad)
+
+
+def bads_level(block):
+    """The same log rule as seen through BADS(...): options['nonlinear_scaling'] True / False / absent decides together with
+    the bounds whether a coordinate is log-transformed (BADS may first move plausible bounds that are within 0.1% of the
+    hard bounds; the rule is evaluated on the bounds as BADS hands them to the transformer)."""
+    import logging
+
+    from pybads import BADS
+
+    logging.disable(logging.CRITICAL)
+    bad = {}
+    n = 0
+    for (lb, plb, pub, ub) in block:
+        for opt in ({}, {"nonlinear_scaling": True}, {"nonlinear_scaling": False}):
+            n += 1
+            scaling = opt.get("nonlinear_scaling", True)
+            x0 = math.sqrt(plb * pub) if plb > 0 else 0.5 * (plb + pub)
+            try:
+                b = BADS(lambda x: 0.0, np.array([[x0]]), np.array([[lb]]), np.array([[ub]]), np.array([[plb]]), np.array([[pub]]), options=dict(opt, display="off"))
+            except Exception as e:  # noqa
+                bad.setdefault("bads-level/construct/%s" % type(e).__name__, ((lb, plb, pub, ub, scaling), str(e)[:60]))
+                continue
+            vt = b.var_transf
+            if bool(vt.apply_log_t[0, 0]) != ref_log(float(vt.orig_lb[0, 0]), float(vt.orig_plb[0, 0]), float(vt.orig_pub[0, 0]), float(vt.orig_ub[0, 0]), scaling):
+                bad.setdefault("bads-level/log-flag/%s" % ("scaling-on" if scaling else "scaling-off"), (lb, plb, pub, ub, scaling))
+    return n, bad
 
 
 def run(ctx):
     rep = Report(ctx, "model_checking")
     q = ctx.quick
     quads = [(a, b, c, d, s) for (a, b, c, d) in quadruples(q) for s in (True, False)]
+    allq = quadruples(q)
+    elig = [qd for qd in allq if ref_log(*qd)]
+    rest = [qd for qd in allq if not ref_log(*qd)]
+    fin = elig[:: max(1, len(elig) // (300 if q else 3000))] + rest[:: max(1, len(rest) // (200 if q else 2000))]
+    NB = 0
+    for n, bad in pmap(bads_level, [fin[i:i + 50] for i in range(0, len(fin), 50)]):
+        NB += n
+        for k, v in bad.items():
+            rep.violation("BADS does not apply the log rule the statement gives (nonlinear_scaling option x bounds)", k, v, dict(kind="badslevel", q=list(v[0] if isinstance(v[0], tuple) else v)))
+    rep.set("bads_level_constructions", NB)
     B = 400
     blocks = [quads[i:i + B] for i in range(0, len(quads), B)]
     N = NP = 0
